@@ -390,7 +390,9 @@ func init() {
 	})
 	// format
 	fmts := sv("", "%s", "%d", "%v", "%%", "%q", "%5.2f", "%[2]s %[1]s", "%", "%z", "%[0]d", "%-5s|", "%x", "%t", "%e", "%#v", "%+d", "%05d", "%.1s", "%[3]s", "%*d", "hello",
-		"%s %s", "%b", "%o", "%X", "%g", "%E", "%G", "%5s|", "%.0f", "%[1]s%[1]s", "%[1", "%[a]s", "%!", "%s%", "%3d|", "% d", "%+s", "%#x", "%08.3f", "%.2s|", "%c", "%U", "%10.3v|", "%-08d|", "%+.1e", "%[2]d")
+		"%s %s", "%b", "%o", "%X", "%g", "%E", "%G", "%5s|", "%.0f", "%[1]s%[1]s", "%[1", "%[a]s", "%!", "%s%", "%3d|", "% d", "%+s", "%#x", "%08.3f", "%.2s|", "%c", "%U", "%10.3v|", "%-08d|", "%+.1e", "%[2]d",
+		// rejected only after output has been produced
+		"50%, of %s", "total: %5", "a%s%", "x=%s;%[1", "%s and %!")
 	genFmts := func() []cty.Value {
 		// the documented verb grammar: % flags width .prec [n] verb
 		var out []cty.Value
